@@ -39,6 +39,9 @@ type Solver struct {
 	Errors   []string
 	timeoutM int
 	perm     []*Term
+	keep     bool
+	cur      strings.Builder
+	slowN    int
 }
 
 func solverArgv(name string, timeoutMs int) []string {
@@ -82,6 +85,10 @@ func NewSolver(name string, timeoutMs int, logPath string) (*Solver, error) {
 func (s *Solver) send(line string) {
 	if s.log != nil {
 		io.WriteString(s.log, line+"\n")
+	}
+	if s.keep {
+		s.cur.WriteString(line)
+		s.cur.WriteByte('\n')
 	}
 	io.WriteString(s.in, line+"\n")
 }
@@ -156,6 +163,21 @@ func (s *Solver) readLine() string {
 // wantModel and the result is sat, values of the given variables are returned.
 func (s *Solver) Check(extra []*Term, wantModel bool, vars []*Term) (Result, map[string]uint64) {
 	start := time.Now()
+	s.keep = os.Getenv("SYMGO_SLOWDIR") != ""
+	s.cur.Reset()
+	if s.keep {
+		// watchdog: dump the query if it is still running after 10 s
+		done := make(chan struct{})
+		defer close(done)
+		go func() {
+			select {
+			case <-done:
+			case <-time.After(10 * time.Second):
+				s.slowN++
+				os.WriteFile(fmt.Sprintf("%s/slow-%d-%d.smt2", os.Getenv("SYMGO_SLOWDIR"), os.Getpid(), s.slowN), []byte(s.cur.String()), 0644)
+			}
+		}()
+	}
 	// one-shot query after (reset): the solver's full preprocessing + SAT
 	// pipeline is used (z3's incremental core is orders of magnitude slower on
 	// these bit-vector queries).
